@@ -393,6 +393,37 @@ func modeC10Boot() {
 	}
 }
 
+// a range file of 300 lines (about 10 KiB, more than any read buffer): labels of early and of late lines; clients of
+// ranges with the same label share answers, clients of ranges with different labels do not
+func c07BigMarker() {
+	var lines []string
+	add := func(lo, hi, label string) { lines = append(lines, lo+","+hi+","+label) }
+	add("127.0.1.0", "127.0.1.255", "office")
+	add("127.0.2.0", "127.0.2.255", "lab")
+	for k := 0; k < 290; k++ {
+		add(fmt.Sprintf("172.%d.%d.0", 16+k/250, k%250), fmt.Sprintf("172.%d.%d.255", 16+k/250, k%250), fmt.Sprintf("floor-%d", k%7))
+	}
+	add("127.0.3.0", "127.0.3.255", "office")
+	add("127.0.4.0", "127.0.4.255", "lab")
+	in, err := newInst("c07-bigmarker", instOpts{
+		listeners: []string{"udp"},
+		upstreams: map[string]string{"u1": "udp"},
+		rules:     []ruleSpec{{Forward: "u1"}},
+		cacheMem:  8 << 20,
+		ipMarker:  lines,
+	})
+	if err != nil {
+		panic(err)
+	}
+	defer in.close()
+	for k := 0; k < 4; k++ {
+		name := fmt.Sprintf("%s.r0t60d0.bm.test.", uniq())
+		for _, src := range []string{"127.0.1.7", "127.0.3.7", "127.0.2.7", "127.0.4.7", "127.0.9.7", "127.0.1.8", "127.0.4.8"} {
+			in.send("udp", src, mkq(name), 3*time.Second, nil)
+		}
+	}
+}
+
 // ---------------------------------------------------------------- C07: cache keying and client groups
 func modeC07(thorough bool) {
 	in, err := newInst("c07", instOpts{
@@ -408,6 +439,7 @@ func modeC07(thorough bool) {
 		panic(err)
 	}
 	defer in.close()
+	c07BigMarker()
 	rounds := 6
 	if thorough {
 		rounds = 40
